@@ -34,6 +34,8 @@ type c03prog struct {
 	Sub    bool   // open a sub-channel, pay inside, finalise it, withdraw it into the parent
 	Agree  [2]int64 // funding agreement different from the initial balances (zero value: none)
 	SubRej bool     // a sub-channel proposal that the peer rejects, then one more payment
+	// SubFinalPays: the only update inside the sub-channel is final AND moves funds (no separate payment)
+	SubFinalPays bool
 }
 
 func (p c03prog) name() string {
@@ -60,6 +62,9 @@ func (p c03prog) name() string {
 	}
 	if p.SubRej {
 		n += "/subrej"
+	}
+	if p.SubFinalPays {
+		n += "/finalpays"
 	}
 	return n
 }
@@ -231,13 +236,19 @@ func c03exec(t *testing.T, ssc schedrun.Scenario, o vsched.Options) (*vsched.Sch
 			vsched.WaitCond("await-sub", func() bool { return len(w.P[1].Chans) > nb })
 			sub1 := w.P[1].Chans[len(w.P[1].Chans)-1]
 			subID = sub0.ID()
-			if sa >= 1 {
-				if err := sub0.Update(ctx, pay(0, 1, false)); err != nil {
-					obs.errs = append(obs.errs, "sub payment: "+classify(err))
+			if pr.SubFinalPays && sa >= 1 {
+				if err := sub0.Update(ctx, pay(0, 1, true)); err != nil {
+					obs.errs = append(obs.errs, "sub final payment: "+classify(err))
 				}
-			}
-			if err := sub0.Update(ctx, pay(0, 0, true)); err != nil {
-				obs.errs = append(obs.errs, "sub final: "+classify(err))
+			} else {
+				if sa >= 1 {
+					if err := sub0.Update(ctx, pay(0, 1, false)); err != nil {
+						obs.errs = append(obs.errs, "sub payment: "+classify(err))
+					}
+				}
+				if err := sub0.Update(ctx, pay(0, 0, true)); err != nil {
+					obs.errs = append(obs.errs, "sub final: "+classify(err))
+				}
 			}
 			done := make(chan string, 2)
 			vsched.GoNamed("settle-sub-A", func() { vsched.Send(done, fmt.Sprintf("A:%v", sub0.Settle(ctx, false))) })
@@ -455,6 +466,9 @@ func c03programs(thorough bool) (all []c03prog, small []c03prog) {
 			all = append(all, c03prog{Bal: [2]int64{5, 5}, Pays: []payStep{{0, 1, true}}, Final: final, Settle: st, Agree: [2]int64{8, 2}})
 			all = append(all, c03prog{Bal: [2]int64{5, 5}, Pays: []payStep{{1, 3, true}}, Final: final, Settle: st, SubRej: true})
 		}
+	}
+	for _, final := range []bool{true, false} {
+		all = append(all, c03prog{Bal: [2]int64{5, 5}, Final: final, Settle: "par", Sub: true, SubFinalPays: true})
 	}
 	// sub-channel variants
 	for _, bal := range [][2]int64{{5, 5}, {10, 0}} {
